@@ -4,18 +4,6 @@ From Coq Require Import String Ascii ZArith List Bool Arith.
 From RV Require Import Base.Val Gen.Common.
 Import ListNotations.
 
-Inductive exn := IndexError | StopIteration | ValueError | KeyError | TypeError | AssertionError | OutOfFuel.
-Inductive result (A : Type) := Ok (a : A) | Raise (e : exn).
-Arguments Ok {A} a.
-Arguments Raise {A} e.
-
-Definition exn_name (e : exn) : string :=
-  (match e with
-  | IndexError => "IndexError" | StopIteration => "StopIteration" | ValueError => "ValueError"
-  | KeyError => "KeyError" | TypeError => "TypeError" | AssertionError => "AssertionError"
-  | OutOfFuel => "OutOfFuel"
-  end)%string.
-
 (* ---------------------------------------------------------------- entries *)
 
 Record entry := { idx : nat; nt : ascii; pair : nat }.   (* pair = 0: unpaired *)
